@@ -3,6 +3,7 @@ use crate::known::Finding;
 use serde_json::Value;
 use std::collections::BTreeSet;
 
+pub mod c07;
 pub mod c08;
 pub mod c09;
 pub mod c11;
@@ -82,6 +83,7 @@ pub fn registry() -> Vec<PropInfo> {
     let mut v = vec![];
     v.extend(hist::props());
     v.extend(eval::props());
+    v.extend(c07::props());
     v.extend(c08::props());
     v.extend(c09::props());
     v.extend(c11::props());
